@@ -1271,6 +1271,314 @@ def joiner_list_read_during_pending_change(**kw):
     return sc.rec
 
 
+def journal_cut_after_compaction(**kw):
+    """a journaled follower whose journal has been through a head drop (log compaction: clear + re-append) later has
+    to cut an uncommitted suffix for a new leader, with records of different sizes around the cut point, appends and
+    acknowledges the new leader's entries, and is then killed and restarted: the journal file must give back exactly
+    what the node acknowledged (seed C06-r4: record offsets remembered in memory and not reset by clear())"""
+    sc = Script(base_cfg([1, 2, 3, 4, 5], journal='file', dump='file', fallback=100000), **kw)
+    s = sc.s
+    s.boot()
+    sc.elect(1)
+    sc.settle([1, 2, 3, 4, 5], 2)
+    for size in (10, 45, 5, 60, 20):
+        s.submit(1, size=size)
+    sc.settle([1, 2, 3, 4, 5], 4)
+    sc.rec.do(('compact', 3))
+    sc.settle([1, 2, 3, 4, 5], 3)                # node 3's journal: cleared and re-appended from its compaction point
+    for x in (2, 4, 5):                         # {1,3} | {2,4,5}
+        for y in (1, 3):
+            s.drop(x, y)
+            s.drop(y, x)
+    for size in (33, 7, 50):
+        s.submit(1, size=size)
+    s.tick(1, 11)
+    s.tick(1, 11)
+    sc.flush(1, 3)                              # 3 holds an uncommitted tail of leader 1
+    sc.elect_until(2, [4, 5])
+    sc.settle([2, 4, 5], 2)
+    for size in (12, 70):
+        s.submit(2, size=size)
+    sc.settle([2, 4, 5], 4)
+    for x in (2, 4, 5):
+        s.connect(3, x)
+        s.connect(x, 3)
+    sc.settle([2, 3, 4, 5], 6)                  # 3 cuts the tail, appends and acknowledges the new leader's entries
+    s.kill(3)
+    s.restart(3)
+    sc.settle([2, 3, 4, 5], 6)
+    return sc.rec
+
+
+def snapshot_install_changes_cluster_size(**kw):
+    """dynamic membership: the cluster grows from 3 to 5 while one old member is cut off; the leader compacts its log past
+    the two add entries, so the lagging member learns the new members from the snapshot it installs, not from log entries;
+    later it sits in a partition with one other node - an old-size majority, a real minority - and times out: it must not
+    win, and nothing may be decided there (seed C10-r4: a quorum size cached at every in-place change of the member set
+    but not where a snapshot replaces the set wholesale)"""
+    def fresh(n, o):
+        s.clock[n] = s.clock.get(n, 0) + 1
+        sc.rec.do(('restart', n, o, s.clock[n], s.rnd()))
+        s.alive.add(n)
+        s.voters.append(n)
+    sc = Script(base_cfg([1, 2, 3], dyn=True, chunk=64, fallback=100000), **kw)
+    s = sc.s
+    s.boot()
+    sc.elect(1)
+    sc.settle([1, 2, 3], 3)
+    s.submit(1, size=10)
+    sc.settle([1, 2, 3], 3)
+    for x in (1, 2):                                # 3 is cut off
+        s.drop(3, x)
+        s.drop(x, 3)
+    fresh(4, [1, 2, 3])
+    sc.rec.do(('admin', 1, True, 4, 901))
+    s.tick(1, 11)
+    for x in (1, 2):
+        s.connect(4, x)
+        s.connect(x, 4)
+    s.tick(2, 11)
+    sc.settle([1, 2, 4], 6)
+    fresh(5, [1, 2, 3, 4])
+    sc.rec.do(('admin', 1, True, 5, 902))
+    s.tick(1, 11)
+    for x in (1, 2, 4):
+        s.tick(x, 11)
+        sc.flush(1, x)
+        s.tick(x, 11)
+    for x in (1, 2, 4):
+        s.connect(5, x)
+        s.connect(x, 5)
+    sc.settle([1, 2, 4, 5], 6)
+    for _ in range(4):
+        s.submit(1, size=10)
+    sc.settle([1, 2, 4, 5], 4)
+    sc.rec.do(('compact', 1))
+    sc.settle([1, 2, 4, 5], 3)
+    for x in (1, 2):
+        s.connect(3, x)
+        s.connect(x, 3)
+    sc.settle([1, 2, 3, 4, 5], 8)                   # 3 installs the snapshot: five members
+    for x in (4, 5):
+        s.connect(3, x)
+        s.connect(x, 3)
+    sc.settle([1, 2, 3, 4, 5], 3)
+    for a in (3, 4):                                # {3,4} | {1,2,5}
+        for b in (1, 2, 5):
+            s.drop(a, b)
+            s.drop(b, a)
+    for _ in range(3):
+        sc.elect(3, [4])                            # 3 stands with 4's vote only: 2 of 5
+    s.submit(3, size=10)
+    sc.settle([3, 4], 4)
+    s.submit(1, size=10)
+    sc.settle([1, 2, 5], 4)
+    return sc.rec
+
+
+def chunk_keepalive_is_not_an_ack(**kw):
+    """a deposed leader still carries an uncommitted tail; the new leader's first append_entries to it is lost with the
+    connection, the next thing it gets is a command bigger than a batch, in pieces.  The replies to the non-final
+    pieces (reset = success = False, next index = the follower's own log end + 1) say nothing about agreement: the
+    leader must not take them for acknowledgements, or it commits with a follower that holds something else
+    (seed C01-r4: `if reset ... elif matchIndex < idx` instead of `if success`)"""
+    sc = Script(base_cfg([1, 2, 3], batch=100, fallback=100000), **kw)
+    s = sc.s
+    s.boot()
+    sc.elect(1)
+    sc.settle([1, 2, 3], 2)
+    s.submit(1, size=10)
+    s.submit(1, size=10)
+    sc.settle([1, 2, 3], 3)
+    sc.isolate(1)
+    s.submit(1, size=10)                          # x1, x2: the stale tail of 1
+    s.submit(1, size=10)
+    s.tick(1, 11)
+    sc.elect_until(2, [3])                        # 2 leads the next term; its no-op is on its way to 3
+    for x in (3,):                                # ... and 2 loses 3 right after the election
+        s.drop(2, x)
+        s.drop(x, 2)
+    s.connect(1, 2)
+    s.connect(2, 1)
+    s.tick(2, 11)                                 # heartbeat / no-op towards 1 ...
+    s.drop(2, 1)
+    s.drop(1, 2)                                  # ... lost with the connection, which comes back at once
+    s.connect(1, 2)
+    s.connect(2, 1)
+    s.submit(2, size=350)                         # goes out in pieces
+    s.tick(2, 11)
+    s.tick(2, 11)
+    sc.flush(2, 1)
+    sc.flush(1, 2)
+    s.submit(2, size=10)
+    s.submit(2, size=10)
+    for _ in range(4):
+        s.tick(2, 11)
+        sc.flush(2, 1)
+        sc.flush(1, 2)
+    # the other two go their own way
+    s.drop(1, 2)
+    s.drop(2, 1)
+    s.connect(1, 3)
+    s.connect(3, 1)
+    sc.elect_until(3, [1])
+    s.submit(3, size=10)
+    s.submit(3, size=10)
+    sc.settle([1, 3], 5)
+    return sc.rec
+
+
+def version_survives_snapshot_and_dump(**kw):
+    """the cluster switches its code version, compacts the log behind the switch; a lagging node is brought up to date
+    by snapshot and another one restarts from its dump file: both must report the switched version
+    (seed C09-r4 / C17 round 1: the enabled version dropped from the serialised attributes)"""
+    sc = Script(base_cfg([1, 2, 3], chunk=64, dump='file', journal='file', fallback=100000), **kw)
+    s = sc.s
+    s.boot()
+    sc.elect(1)
+    sc.settle([1, 2, 3], 2)
+    s.submit(1, size=10)
+    sc.settle([1, 2, 3], 3)
+    for x in (1, 2):
+        s.drop(3, x)
+        s.drop(x, 3)
+    sc.rec.do(('setver', 1, 1, 950))
+    sc.settle([1, 2], 4)
+    for _ in range(3):
+        s.submit(1, size=10)
+    sc.settle([1, 2], 4)
+    sc.rec.do(('compact', 1))
+    sc.rec.do(('compact', 2))
+    sc.settle([1, 2], 4)
+    s.submit(1, size=10)
+    sc.settle([1, 2], 3)
+    for x in (1, 2):
+        s.connect(3, x)
+        s.connect(x, 3)
+    sc.settle([1, 2, 3], 8)                     # 3 installs the snapshot taken after the switch
+    s.kill(2)
+    s.restart(2)                                # 2 comes back from its dump file + journal
+    sc.settle([1, 2, 3], 5)
+    s.submit(2, size=10)
+    s.submit(3, size=10)
+    sc.settle([1, 2, 3], 4)
+    return sc.rec
+
+
+def vote_regrant_after_flap(**kw):
+    """five voters, a split election: 1 and 3 stand in the same term, 2 votes for 1, 4 and 5 vote for 3 (which wins);
+    the connection between 1 (still a candidate) and 2 flaps: nothing 1 or 2 do at the reconnect may give 1 a second
+    vote of 2 (seed C07-r4: a candidate re-sends its request when a peer connects, a voter answers the candidate it
+    voted for again, and votes are counted, not collected)"""
+    sc = Script(base_cfg([1, 2, 3, 4, 5], fallback=100000), **kw)
+    s = sc.s
+    s.boot()
+    T = sc.rec.cfg['tmin'] + sc.rec.cfg['tspan'] + 1
+    s.tick(1, T)                                  # candidate of term 1
+    s.tick(3, T)                                  # candidate of term 1 as well
+    sc.flush(1, 2)
+    sc.flush(2, 1)                                # 2 voted for 1: 1 has two votes
+    for x in (4, 5):
+        sc.flush(3, x)
+        sc.flush(x, 3)                            # 3 has three votes and leads term 1
+    for x in (4, 5):
+        sc.flush(1, x)
+        sc.flush(x, 1)                            # refused
+    for _ in range(2):                            # the connection 1 - 2 flaps while 1 is still a candidate (and before
+                                                  # 2 has heard from the winner)
+        s.drop(1, 2)
+        s.drop(2, 1)
+        s.connect(1, 2)
+        s.connect(2, 1)
+        sc.flush(1, 2)
+        sc.flush(2, 1)
+    sc.settle([1, 2, 3, 4, 5], 3)
+    return sc.rec
+
+
+def raising_then_snapshot(**kw):
+    """commands raising every kind of exception (one of them an exception object that does not survive pickling) are
+    applied; the log is compacted behind them; a lagging node is brought up to date by snapshot and a journaled node
+    restarts from its dump: both end with the same state as everybody else
+    (seed C12-r4: the last exception OBJECT kept in the replicated state and pickled into every snapshot)"""
+    sc = Script(base_cfg([1, 2, 3], chunk=64, dump='file', journal='file', fallback=100000), **kw)
+    s = sc.s
+    s.boot()
+    sc.elect(1)
+    sc.settle([1, 2, 3], 2)
+    s.submit(1, size=5)
+    sc.settle([1, 2, 3], 3)
+    for x in (1, 2):
+        s.drop(3, x)
+        s.drop(x, 3)
+    from harness.sim import RAISED
+    for _ in range(len(RAISED) + 1):            # consecutive command ids: every exception type once, the awkward one last
+        s.submit(1, size=5, raises=True)
+    while s.next_cid % len(RAISED) != len(RAISED) - 1:
+        s.submit(1, size=5)
+    s.submit(1, size=5, raises=True)            # the awkward exception is the last one raised before the snapshot
+    s.submit(1, size=5)
+    sc.settle([1, 2], 5)
+    sc.rec.do(('compact', 1))
+    sc.rec.do(('compact', 2))
+    sc.settle([1, 2], 4)
+    s.submit(1, size=5)
+    sc.settle([1, 2], 3)
+    for x in (1, 2):
+        s.connect(3, x)
+        s.connect(x, 3)
+    sc.settle([1, 2, 3], 8)                     # 3 installs the snapshot
+    s.kill(2)
+    s.restart(2)                                # 2 restarts from its dump file
+    sc.settle([1, 2, 3], 5)
+    s.submit(2, size=5)
+    s.submit(3, size=5)
+    RC.quiet_period(s, timeouts=3, submit_on=3)
+    sc.rec.convergence = RC.convergence_problems(sc.rec, s, None, {})
+    sc.rec.convergence_props = ('C05', 'C12')
+    return sc.rec
+
+
+def big_entry_index_reused(**kw):
+    """a leader sends big entries (in pieces) at positions k, k+1 that never arrive; it is deposed, its tail is replaced -
+    position k+1 now holds a DIFFERENT big entry, committed; it is elected again and must bring a lagging follower up to
+    date with that entry: what goes out is what the log holds now, not what was pickled for that position before
+    (seed C11-r4: a one-slot cache of the pickled big entry keyed by the log position alone)"""
+    sc = Script(base_cfg([1, 2, 3], batch=100, fallback=100000), **kw)
+    s = sc.s
+    s.boot()
+    sc.elect(1)
+    sc.settle([1, 2, 3], 2)
+    s.submit(1, size=10)
+    s.submit(1, size=10)
+    sc.settle([1, 2, 3], 3)
+    for x in (2, 3):                              # 1 does not notice that nobody hears it any more
+        s.drop(x, 1)
+    s.submit(1, size=350)                         # X at k
+    s.submit(1, size=360)                         # Y at k+1
+    s.tick(1, 11)
+    s.tick(1, 11)
+    s.tick(1, 11)
+    sc.elect_until(2, [3])
+    sc.settle([2, 3], 3)                          # 2's no-op at k is on 3
+    s.drop(3, 2)
+    s.drop(2, 3)                                  # 3 stops here
+    s.connect(2, 1)                               # 1 first has to notice that its old connection is gone
+    s.connect(1, 2)
+    s.connect(2, 1)
+    sc.settle([1, 2], 4)                          # 1 follows 2: X, Y are cut
+    s.submit(2, size=370)                         # Z at k+1
+    sc.settle([1, 2], 5)                          # committed by {1, 2}
+    s.drop(1, 2)
+    s.drop(2, 1)
+    s.connect(3, 1)
+    s.connect(1, 3)
+    s.connect(3, 1)
+    sc.elect_until(1, [3])                        # 1 leads again and has to send position k+1 to 3
+    sc.settle([1, 3], 8)
+    return sc.rec
+
+
 SCENARIOS = {'d7': d7, 'd8': d8, 'd17': d17, 'd16': d16, 'd1': d1, 'd20': d20,
              'snapshot_catchup': snapshot_catchup, 'forwarded': forwarded,
              'restart_double_vote': restart_double_vote, 'd18': d18, 'd10': d10, 'd19': d19, 'd6': d6,
@@ -1287,7 +1595,14 @@ SCENARIOS = {'d7': d7, 'd8': d8, 'd17': d17, 'd16': d16, 'd1': d1, 'd20': d20,
              'raising_replay_after_restart': raising_replay_after_restart,
              'observer_of_snapshot_installed_voter': observer_of_snapshot_installed_voter,
              'readded_address_partial_replay': readded_address_partial_replay,
-             'joiner_list_read_during_pending_change': joiner_list_read_during_pending_change}
+             'joiner_list_read_during_pending_change': joiner_list_read_during_pending_change,
+             'journal_cut_after_compaction': journal_cut_after_compaction,
+             'snapshot_install_changes_cluster_size': snapshot_install_changes_cluster_size,
+             'chunk_keepalive_is_not_an_ack': chunk_keepalive_is_not_an_ack,
+             'version_survives_snapshot_and_dump': version_survives_snapshot_and_dump,
+             'vote_regrant_after_flap': vote_regrant_after_flap,
+             'raising_then_snapshot': raising_then_snapshot,
+             'big_entry_index_reused': big_entry_index_reused}
 NAMES = sorted(SCENARIOS)
 
 
